@@ -72,9 +72,55 @@ func (p *regExpParser) scan() {
 			p.error(-1, "Unmatched ')'")
 			p.invalid = true
 			p.pass()
+		case '{':
+			p.scanBrace()
 		default:
 			p.pass()
 		}
+	}
+}
+
+// {n} {n,} {n,m}: re2 does not take leading zeros in a repeat count
+// and would fall back to matching the text literally.
+func (p *regExpParser) scanBrace() {
+	str := p.str[p.chrOffset:]
+	end := 1
+	number := func() (string, bool) {
+		start := end
+		for end < len(str) && '0' <= str[end] && str[end] <= '9' {
+			end++
+		}
+		if start == end {
+			return "", false
+		}
+		digits := str[start:end]
+		for len(digits) > 1 && digits[0] == '0' {
+			digits = digits[1:]
+		}
+		return digits, true
+	}
+	out := "{"
+	minimum, ok := number()
+	if !ok {
+		p.pass()
+		return
+	}
+	out += minimum
+	if end < len(str) && str[end] == ',' {
+		end++
+		out += ","
+		if maximum, ok := number(); ok {
+			out += maximum
+		}
+	}
+	if end >= len(str) || str[end] != '}' {
+		p.pass()
+		return
+	}
+	out += "}"
+	p.goRegexp.WriteString(out)
+	for ; end >= 0; end-- {
+		p.read()
 	}
 }
 
@@ -107,6 +153,8 @@ func (p *regExpParser) scanGroup() {
 		case '[':
 			p.pass()
 			p.scanBracket()
+		case '{':
+			p.scanBrace()
 		default:
 			p.pass()
 			continue
